@@ -174,6 +174,7 @@ func nwTreePool() []nwTree {
 }
 
 func runC05(r *core.Run) {
+	defer everyLength(r)
 	racePass(r, "race-format-newick", "the newick codec: readers each on their own stream (whole and in 7-byte reads, every corpus file), Write on shared records into separate destinations, File on one shared path; every result is compared with what the same call returned when it ran alone")
 	firstCallClause(r, "newick.Reader", "newick.Write")
 	N := core.Pick(r, 6, 8)
